@@ -515,6 +515,35 @@ def views_after_mutation(chk: Check, n):
                     break
 
 
+def wrapped_numbers(chk: Check, n):
+    """results hold tea_tasting.utils.Float / Int values (zero-division-safe wrappers), not plain floats: rendering a
+    wrapped number is rendering the number"""
+    import tea_tasting.utils as tu
+    rng = chk.rng
+    for i in range(n):
+        v = rng.uniform(-1, 1) * 10 ** rng.randint(-5, 7)
+        if i % 4 == 0:
+            v = -abs(v)
+        if i % 7 == 3:
+            v = float(rng.randint(-500, 500))
+        sig = rng.choice([1, 2, 3, 5])
+        pct = i % 3 == 0
+        chk.case(("wrapped", sig, pct, v < 0))
+        chk.branch("format:wrapped-number")
+        try:
+            plain = tu.format_num(v, sig=sig, pct=pct)
+            wrapped = tu.format_num(tu.numeric(v), sig=sig, pct=pct)
+            via_get = tu.get_and_format_num({"x": tu.numeric(v)}, "x")
+            via_get_plain = tu.get_and_format_num({"x": v}, "x")
+        except Exception as ex:  # noqa: BLE001
+            chk.fail("format_num raised on a finite / special number", dict(value=v, sig=sig, pct=pct, error=repr(ex)))
+            continue
+        if plain != wrapped or via_get != via_get_plain:
+            chk.fail("a number wrapped in tea_tasting.utils.Float / Int (what analysis results hold) is rendered differently "
+                     "from the same plain number", dict(value=v, sig=sig, pct=pct, plain=plain, wrapped=wrapped,
+                                                        get_and_format=[via_get_plain, via_get]))
+
+
 def types_homogeneous(dicts):
     kinds = {}
     for d in dicts:
@@ -567,6 +596,7 @@ def main():
     format_runs(chk, 500 if q else 6000)
     views(chk, 4 if q else 40)
     views_after_mutation(chk, 3 if q else 30)
+    wrapped_numbers(chk, 60 if q else 600)
     chk.cov["rule"] = ("numbers: specials, powers of ten 1e-12..1e12 +- 1 ulp, 5/9.5/9.95/9.995 x 10^k, the named boundary "
                        "values, random floats of all magnitudes / bit patterns, short decimals (ties), ints (also > 2^53); "
                        "sig in {1..5,8,12,15}; pct; 6 fixed-point ranges (None bounds); 6 separator pairs (incl. '.'/','); "
